@@ -26,8 +26,13 @@ RULE = ("generated call histories (1-4 calls with differing keyword arguments on
         "between constructor and call) for every filter class on 2-D/3-D shapes with odd and even extents on every "
         "axis (exhaustive small 2-D shapes for band-pass and continuous wedge), hard/Gaussian edges, cut-offs incl. "
         "exact grid values, sampling rates, tilt ranges and all opening/tilt axis pairs; compositions of all subsets/"
-        "orders of {band-pass, whitening, wedge, CTF}. distinct = distinct (filter, shape, arguments) tuples; shapes "
-        "with all extents <= 2 and repeated argument tuples are not counted")
+        "orders of {band-pass, whitening, wedge, CTF}; widened stream (pv/c12_wide.py): argument representations (int / float / "
+        "numpy scalars, tuple / list / float64 / float32 arrays, shapes as list / ndarray), extents up to 49 incl. primes, powers of "
+        "two and extents 2 / 3 next to large ones, shape-preserving histories, results overwritten by the caller, repeated and "
+        "unmodified arguments, copies / pickles of used objects, per-call whitening data in several dtypes / layouts / scales with an "
+        "independent radial average, stacks (batch_dimension=0), reconstruction filters, astigmatic and tilt-stack CTF, reused / "
+        "nested / full-spectrum compositions, evaluation order across two interpreters, float64 backend. distinct = distinct "
+        "(filter, shape, arguments) tuples; shapes with all extents <= 2 and repeated argument tuples are not counted")
 ASSUMPTIONS = [
     "exp, sqrt, tan, sin and scipy's ndimage.mean / map_coordinates are exercised, not modelled: the radial averages and the wedge "
     "limits tan(.) the real code computes enter the Lean model as inputs; Gaussian masks are compared at 1e-12",
@@ -37,6 +42,11 @@ ASSUMPTIONS = [
     "the leading axes and on the self-conjugate planes of the last axis",
     "per-tilt step wedge, tilt-stack Wedge and CTF values are not modelled (interpolation / sin numerics): shape, half-of-full, range and "
     "statelessness clauses are evaluated on the real arrays only; no symmetry is claimed for them",
+    "LinearWhiteningFilter: batch_dimension is exercised for axis 0 only (scipy.ndimage.mean cannot broadcast the labels otherwise) and "
+    "shapes are not passed as ndarray (the code tests `if shape`); the independent radial average skips inputs with a voxel within 1e-9 "
+    "of a bin edge and compares at 1e-9 (complex128 input) / 1e-5 (complex64 input: two float32 roundings per sample before the mean)",
+    "results of one list of calls are required to agree to 1e-9 between this process and a fresh interpreter evaluating the list in "
+    "reverse order (same binaries, same inputs: deterministic)",
 ]
 TRUSTED = ["C12: numpy element-wise arithmetic, exp/tan/sin, scipy.ndimage.mean and map_coordinates (order 1, mode constant)"]
 
@@ -173,6 +183,11 @@ def source_obligations(ctx):
             and "self.__dict__" not in src and "setattr(self" not in src
         ctx.obligation(f"{cls.__name__}.__call__ merges into a copy of vars(self) (model: callCopy)", ok,
                        None if ok else src[:600])
+    from tme.preprocessing.frequency_filters import LinearWhiteningFilter
+    src = inspect.getsource(LinearWhiteningFilter.__call__)
+    ok = "axes=tuple(range(filter_mask.ndim - 1))" in src
+    ctx.obligation("LinearWhiteningFilter.__call__ un-shifts every axis of the mask but its last (model: whitenShiftAxes)", ok,
+                   None if ok else src[-700:])
     src = inspect.getsource(Compose.__call__)
     ok = "kwargs.update(meta)" in src and "be.multiply(ret[\"data\"], prev_data" in src
     ctx.obligation("Compose.__call__ forwards meta and multiplies in place (model: composeLoop)", ok, None if ok else src[:800])
@@ -950,6 +965,11 @@ def run(ctx):
     # compositions in which an earlier filter's metadata reaches a later wedge / CTF, and the `data` keyword path
     for force in (("wc", "ctf"), ("ctf", "wc"), ("wc", "ws"), ("bp", "lw", "data"), ("lw", "bp", "data"), ("bp", "wc", "ctf")):
         _guard(ctx, "compose", check_compose, rng, force=force)
+    # widened input space (argument representations, large / degenerate shapes, shape-preserving histories, overwritten
+    # results, per-call data, reconstruction filters, astigmatic CTF / tilt stacks, reused compositions, float64 backend,
+    # evaluation order across processes): harness/pv/c12_wide.py
+    from .. import c12_wide
+    c12_wide.suite(ctx, ctx.rng("wide"))
     ctx.sample({"what": "band-pass history", **_sample_bp(ctx)})
 
 
@@ -967,6 +987,8 @@ def search(ctx):
     for j in range(3):
         rng = ctx.rng(f"search{j}")
         _suite(ctx, rng, 1.5, wide=True)
+        from .. import c12_wide
+        c12_wide.suite(ctx, ctx.rng(f"wide-search{j}"), 1.5)
         if ctx.spec_failures:
             from ..findings import known_for
             known = known_for(ID)
@@ -979,7 +1001,10 @@ def replay(ctx, rec):
     inp = rec.get("input", rec)
     kind = inp.get("kind")
     rng = ctx.rng("replay")
-    if kind == "bandpass":
+    if str(kind).startswith("wide-"):
+        from .. import c12_wide
+        c12_wide.replay(ctx, inp)
+    elif kind == "bandpass":
         from tme.preprocessing.frequency_filters import BandPassFilter
         ctor = _unjson(inp["ctor"])
         calls = [_unjson(c) for c in inp["calls"]]
